@@ -82,7 +82,7 @@ theorem assign_error_world [DecidableEq α] (E : Env α) (w : World α) (p : Pai
 
 /-- An in-place mutation raises exactly what the same call raises on an
 unlinked list trait. -/
-theorem mutate_exc (E : Env α) (w : World α) (p : Pair) (op : Op α) (hl : E.isList p.2 = true) :
+theorem mutate_exc (E : Env α) (w : World α) (p : Pair) (op : Op α) (hl : E.isList p = true) :
     (w.mutate E p op).exc =
       (match listStep (E.tl p) (w.list p) op with | .ok _ => none | .error e => some e) := by
   unfold World.mutate World.budget
